@@ -943,9 +943,9 @@ func tryReplay(prog *Program, cs *ContractSet, prop string, r ObResult, rep *Rep
 	// maps with integer keys and scalar values: evaluated at every integer leaf term of the entry state (the keys the
 	// code and the contract can name); other keys of the model's map are not materialised
 	type mapLeaf struct {
-		goLval        string
+		goLval         string
 		keyT, dom, val *Term
-		vkind         SortKind
+		vkind          SortKind
 	}
 	var mapLeaves []mapLeaf
 	for _, k := range klist {
